@@ -246,12 +246,32 @@ fn prop(c: &Case, ctx: &Ctx) -> PResult {
         let stem = sqpack::file_stem(0x04, 0, 0, c.platform as usize);
         let path = "chara/test/file.bin";
         let rec = sqpack::IndexRecord { path: path.to_string(), dat_id: c.dat_id, offset, synonym: false };
-        inst.write(0, &format!("{}.index{}", stem, if c.index2 { "2" } else { "" }), &sqpack::index_file(c.platform, -1, c.index2, &[rec], 8, true));
+        // a decoy in *another* dat file of the same chunk, at the same offset, extracted first on the same handle:
+        // the bytes returned for the real path must still come from the dat file its index entry names
+        let decoy_dat = (c.dat_id + 1 + (c.seed % 7) as u8) % 8;
+        let decoy_path = "chara/test/decoy.bin";
+        let decoy = sqpack::IndexRecord { path: decoy_path.to_string(), dat_id: decoy_dat, offset, synonym: false };
+        let decoy_content = b"decoy entry in another dat file".to_vec();
+        let mut dat2 = sqpack::sqpack_header(c.platform, 1, -1);
+        dat2.resize(2048, 0);
+        dat2.extend_from_slice(&lead);
+        dat2.extend_from_slice(&sqpack::standard_entry(&[sqpack::BlockSpec { data: decoy_content.clone(), mode: Mode::Raw }], 0, &[]));
+        inst.write(0, &format!("{}.index{}", stem, if c.index2 { "2" } else { "" }), &sqpack::index_file(c.platform, -1, c.index2, &[rec, decoy], 8, true));
         inst.write(0, &format!("{}.dat{}", stem, c.dat_id), &dat);
-        guard("GameData::extract", || {
+        inst.write(0, &format!("{}.dat{}", stem, decoy_dat), &dat2);
+        let (first, second) = guard("GameData::extract", || {
             let mut g = physis::gamedata::GameData::from_existing(sqpack::platform_enum(c.platform as usize), &inst.game_dir())?;
-            g.extract(path)
+            let first = if c.seed % 2 == 0 { g.extract(decoy_path) } else { None };
+            let second = g.extract(path);
+            let after = if c.seed % 2 == 1 { g.extract(decoy_path) } else { first };
+            Some((after, second))
         })?
+        .unwrap_or((None, None));
+        if first.as_deref() != Some(&decoy_content[..]) {
+            return fail("decoy-content-differs", format!("the second file of the chunk (stored in dat{}) was extracted as {:?}", decoy_dat, first.map(|b| String::from_utf8_lossy(&b[..b.len().min(40)]).to_string())));
+        }
+        ctx.class("route:two-dat-files-on-one-handle");
+        second
     } else {
         let dir = TmpDir::new("c02");
         let p = dir.join(format!("040000.win32.dat{}", c.dat_id));
